@@ -20,7 +20,7 @@ ASSUMPTIONS = ["markers are non-negative (False/True/0/0.5/1/2.5): the statement
                "underflows",
                "the epsilon clauses use separated pairs only: coordinates exactly equal or >= 1e-12 relatively apart (~10^4 ulps)"]
 
-MARKERS = [False, True, 0, 0.0, 0.5, 1, 2.5]
+MARKERS = [False, True, 0, 0.0, 0.5, 1, 2.5, -0.5, -1, -2.5]   # the comparators rank markers by magnitude: +x and -x tie
 grid = st.integers(-2, 3).map(float)      # negative = maximised objectives; hash(-1.0) == hash(-2.0) in CPython
 mag = st.floats(1e-100, 1e100, allow_nan=False, allow_infinity=False)
 wide = st.one_of(st.just(0.0), st.just(-0.0), mag, mag.map(lambda x: -x),
